@@ -60,3 +60,125 @@ Theorem unequal_lengths_not_conservative :
   exists c cs, bcf c = 2%Z /\ bcl c = 2%Z /\ ishift c = 0%Z /\ ~ total (transport c 0 0 1 cs) == total cs.
 Proof. exact Checker.unequal_lengths_refute. Qed.
 Print Assumptions unequal_lengths_not_conservative.
+
+(* ---------------------------------------------------------------------------------------------
+   T-gen: the statements below mention constants of coq/Gen/Gen_C11_initmix.v, which is regenerated
+   from the current transport.cpp (Phreeqc::init_mix) on every run. *)
+From Coq Require Import String.
+From IPV.Gen Require Import Gen_C11_initmix.
+From IPV.C11 Require Import GenTie.
+
+(* guards / loop headers / assignment targets of init_mix (common prefix + single-coefficient branch),
+   in source order, are the ones the model was transcribed from *)
+Theorem gen_initmix_shape : Gen_C11_initmix.shape = GenTie.expected_shape.
+Proof. exact GenTie.shape_ok. Qed.
+Print Assumptions gen_initmix_shape.
+
+Theorem gen_initmix_corr_disp : forall c : cfg,
+  corr_disp c ==
+  (let n := inject_Z (ncells c) in
+   let x0 := L_v04_1 (env []) in
+   if corrd c && adv c then
+     let x1 := if Z.eqb (bcf c) 3 then L_v04_2 (env [("v04"%string, x0); ("count_cells"%string, n)]) else x0 in
+     if Z.eqb (bcl c) 3 then L_v04_3 (env [("v04"%string, x1); ("count_cells"%string, n)]) else x1
+   else x0).
+Proof. exact GenTie.gen_corr_disp. Qed.
+Print Assumptions gen_initmix_corr_disp.
+
+Theorem gen_initmix_diffc_here : forall cs d t sh b1 b2 cd,
+  diffc_here (mkCfg cs d t sh b1 b2 cd) == L_v05_1 (env [("diffc_tr"%string, d); ("timest"%string, t)]).
+Proof. exact GenTie.gen_diffc_here. Qed.
+Print Assumptions gen_initmix_diffc_here.
+
+Theorem gen_initmix_dav_up : forall dav a b,
+  dav_upd dav a b ==
+  (let E := fun d => env [("v01"%string, d); ("length[v08]"%string, len a); ("disp[v08]"%string, disp a);
+                           ("length[v08+1]"%string, len b); ("disp[v08+1]"%string, disp b)] in
+   let d1 := if Qnz (disp a) then L_v01_2 (E dav) else dav in
+   if Qnz (disp b) then L_v01_3 (E d1) else d1).
+Proof. exact GenTie.gen_dav_up. Qed.
+Print Assumptions gen_initmix_dav_up.
+
+Theorem gen_initmix_dav_lo : forall dav a b,
+  dav_upd dav a b ==
+  (let E := fun d => env [("v01"%string, d); ("length[v08]"%string, len a); ("disp[v08]"%string, disp a);
+                           ("length[v08-1]"%string, len b); ("disp[v08-1]"%string, disp b)] in
+   let d1 := if Qnz (disp a) then L_v01_4 (E dav) else dav in
+   if Qnz (disp b) then L_v01_5 (E d1) else d1).
+Proof. exact GenTie.gen_dav_lo. Qed.
+Print Assumptions gen_initmix_dav_lo.
+
+Theorem gen_initmix_factor_up : forall a corr dh dav cur nx,
+  fst (half_factor a corr dh dav cur nx) ==
+  (let dav' := snd (half_factor a corr dh dav cur nx) in
+   let E := fun m => env [("v11[v08]"%string, m); ("v01"%string, dav'); ("v05"%string, dh); ("v04"%string, corr);
+                           ("length[v08]"%string, len cur); ("length[v08+1]"%string, len nx)] in
+   let m0 := L_v11_v08_1 (E 0) in
+   let m1 := if a && Qnz dav' then L_v11_v08_2 (E m0) else m0 in
+   let m2 := L_v11_v08_3 (E m1) in
+   L_v11_v08_4 (E m2)).
+Proof. exact GenTie.gen_factor_up. Qed.
+Print Assumptions gen_initmix_factor_up.
+
+Theorem gen_initmix_factor_lo : forall a corr dh dav cur pv,
+  fst (half_factor a corr dh dav cur pv) ==
+  (let dav' := snd (half_factor a corr dh dav cur pv) in
+   let E := fun m => env [("v10[v08]"%string, m); ("v01"%string, dav'); ("v05"%string, dh); ("v04"%string, corr);
+                           ("length[v08]"%string, len cur); ("length[v08-1]"%string, len pv)] in
+   let m0 := L_v10_v08_1 (E 0) in
+   let m1 := if a && Qnz dav' then L_v10_v08_2 (E m0) else m0 in
+   let m2 := L_v10_v08_3 (E m1) in
+   L_v10_v08_4 (E m2)).
+Proof. exact GenTie.gen_factor_lo. Qed.
+Print Assumptions gen_initmix_factor_lo.
+
+Theorem gen_initmix_bnd_first : forall a dh c,
+  bnd_factor a dh c ==
+  (let E := fun m => env [("v10[1]"%string, m); ("v05"%string, dh); ("length[1]"%string, len c); ("disp[1]"%string, disp c)] in
+   let m0 := L_v10_1_1 (E 0) in if a then L_v10_1_2 (E m0) else m0).
+Proof. exact GenTie.gen_bnd_first. Qed.
+Print Assumptions gen_initmix_bnd_first.
+
+Theorem gen_initmix_bnd_last : forall a dh c,
+  bnd_factor a dh c ==
+  (let E := fun m => env [("v11[count_cells]"%string, m); ("v05"%string, dh); ("length[count_cells]"%string, len c);
+                           ("disp[count_cells]"%string, disp c)] in
+   let m0 := L_v11_count_cells_1 (E 0) in if a then L_v11_count_cells_2 (E m0) else m0).
+Proof. exact GenTie.gen_bnd_last. Qed.
+Print Assumptions gen_initmix_bnd_last.
+
+Theorem gen_initmix_maxmix : forall mx m m1,
+  L_v03_1 (env []) == 0 /\
+  upmax mx (sum2 (m, m1)) ==
+    (let mf := L_v02_1 (env [("v10[v08]"%string, m); ("v11[v08]"%string, m1)]) in
+     if Qltb mx mf then L_v03_2 (env [("v02"%string, mf)]) else mx) /\
+  upmax mx (sum2 (m, m1)) ==
+    (let mf := L_v02_2 (env [("v10[1]"%string, m); ("v11[1]"%string, m1)]) in
+     if Qltb mx mf then L_v03_3 (env [("v02"%string, mf)]) else mx) /\
+  upmax mx (sum2 (m, m1)) ==
+    (let mf := L_v02_3 (env [("v10[count_cells]"%string, m); ("v11[count_cells]"%string, m1)]) in
+     if Qltb mx mf then L_v03_4 (env [("v02"%string, mf)]) else mx).
+Proof. exact GenTie.gen_maxmix. Qed.
+Print Assumptions gen_initmix_maxmix.
+
+Theorem gen_initmix_nmix : forall c mx,
+  inject_Z (nmix_of c mx) ==
+  (if Qeq_bool mx 0 then L_v09_1 (env [])
+   else let k := L_v09_2 (env [("v03"%string, mx)]) in
+        if adv c && (Z.eqb (bcf c) 1 || Z.eqb (bcl c) 1) && Qltb k (2 # 1) then L_v09_3 (env []) else k).
+Proof. exact GenTie.gen_nmix. Qed.
+Print Assumptions gen_initmix_nmix.
+
+Theorem gen_initmix_divide : forall m n,
+  m / n == L_v10_v08_5 (env [("v10[v08]"%string, m); ("v09"%string, n)]) /\
+  m / n == L_v11_v08_5 (env [("v11[v08]"%string, m); ("v09"%string, n)]) /\
+  L_return_1 (env [("v09"%string, n)]) == n.
+Proof. exact GenTie.gen_divide. Qed.
+Print Assumptions gen_initmix_divide.
+
+Theorem gen_initmix_mix_coefficients : forall m m1 prev c next,
+  m * prev + (1 - m - m1) * c + m1 * next ==
+  (let E := env [("v10[v08]"%string, m); ("v11[v08]"%string, m1)] in
+   L_v13_Add_arg1_1 E * prev + L_v13_Add_arg1_3 E * c + L_v13_Add_arg1_2 E * next).
+Proof. exact GenTie.gen_mix_coefficients. Qed.
+Print Assumptions gen_initmix_mix_coefficients.
